@@ -31,7 +31,8 @@ RULE = (
     "pair drawn from: literal value, fixed index, unary/binary operator swap, operand swap of a non-commutative operator, "
     "coefficient element degree/family/shape/mapping, cell, geometric dimension, integral type, subdomain id, metadata "
     "value (last digits of a float, one array entry in the middle / at the end / in the 9th digit, nested value), "
-    "removal of a metadata key. non-trivial = a pair that is provably different (data edit, or integrand values differ "
+    "removal of a metadata key, one coefficient/constant used in place of two of the same space (coefficients and "
+    "constants are instances of ufl's classes or of user subclasses of them). non-trivial = a pair that is provably different (data edit, or integrand values differ "
     "numerically); distinct = distinct (form, edit)."
 )
 ASSUMPTIONS = [
@@ -39,13 +40,13 @@ ASSUMPTIONS = [
     "integrand edits count only when the interpreter finds different values at two random points",
 ]
 BUDGET = {"quick": {"examples": 2500, "seconds": 70}, "thorough": {"examples": 80000, "seconds": 1500}}
-LABEL_FLOORS = {"quick": {"pair:different": 900, "edit:md_array": 60, "edit:element": 50, "rebuild": 2000}}
+LABEL_FLOORS = {"quick": {"merge:types-differ": 40, "pair:different": 900, "edit:md_array": 60, "edit:element": 50, "rebuild": 2000}}
 CASE_TIMEOUT = {"quick": 20, "thorough": 60}
 
 OPS = {"arith", "math", "cond", "index", "tensor", "compound", "deriv", "pow", "abs", "var", "sign"}
 PROF = Profile(ops=OPS, leaves={"coef", "const", "lit", "x", "geo", "eye"}, max_rank=2, elements="all", manifolds=True,
                args=((0, "any"), (1, "any")))
-EDITS = ["field_mesh", "field_mesh", "integral_mesh", "literal", "literal", "fixed_index", "index_pattern", "index_pattern", "operator", "operator", "swap_operands", "element", "element", "cell", "gdim",
+EDITS = ["merge_fields", "merge_fields", "field_mesh", "field_mesh", "integral_mesh", "literal", "literal", "fixed_index", "index_pattern", "index_pattern", "operator", "operator", "swap_operands", "element", "element", "cell", "gdim",
          "itype", "sid", "md_value", "md_value", "md_array", "md_array", "md_key"]
 MDS = [{}, {"quadrature_degree": 2}, {"quadrature_degree": 3, "scheme": "default"}, {"tol": 0.1234567890123},
        {"opts": {"a": 1, "b": [1, 2, 3]}}, {"quadrature_rule": "custom", "points": {"__array__": [3, 1, None, 0]}},
@@ -63,6 +64,9 @@ def cases(draw, tier):
         for n_, f_ in world["fields"].items():
             if f_["kind"] in ("coef", "const"):
                 f_["mesh"] = draw(st.integers(0, nmesh - 1))
+    for n_, f_ in world["fields"].items():
+        if f_["kind"] in ("coef", "const"):
+            f_["pytype"] = draw(st.sampled_from([0, 0, 0, 1, 2]))
     G = Gen(draw, world, PROF)
     L = LinGen(G)
     nargs = draw(st.sampled_from([0, 1, 2]))
@@ -191,6 +195,37 @@ def apply_edit(case, rng):
         ix[a], ix[b_] = ix[b_], ix[a]
         itg["expr"] = put(itg["expr"], p, [node[0], node[1], ix])
         return c, "integrand"
+    if e == "merge_fields":
+        # one coefficient (constant) used where two were: the compiler receives one array less
+        w = c["world"]
+        dumped = str(c["integrals"]) + str(c.get("vars", ()))
+        used = [n for n, f in w["fields"].items() if f["kind"] in ("coef", "const") and str(["fld", n]) in dumped]
+        pairs = [(a, b_) for a in used for b_ in used if a != b_ and w["fields"][a]["kind"] == w["fields"][b_]["kind"]
+                 and list(w["fields"][a]["shape"]) == list(w["fields"][b_]["shape"])]
+        if not pairs:
+            return None
+        a, b_ = pairs[int(rng.integers(0, len(pairs)))]
+        # the two fields live in the same space in both forms of the pair
+        c0 = copy.deepcopy(case)
+        for cc in (c, c0):
+            for key in ("elem", "mesh"):
+                if key in cc["world"]["fields"][a]:
+                    cc["world"]["fields"][b_][key] = copy.deepcopy(cc["world"]["fields"][a][key])
+                else:
+                    cc["world"]["fields"][b_].pop(key, None)
+
+        def sub(r):
+            if isinstance(r, list):
+                if r == ["fld", b_]:
+                    return ["fld", a]
+                return [sub(x) for x in r]
+            return r
+
+        for i_ in c["integrals"]:
+            i_["expr"] = sub(i_["expr"])
+        c["vars"] = [sub(v) for v in c.get("vars", ())]
+        c["_merged"] = [a, b_]
+        return c, "merge", c0
     if e == "operator":
         ss = sites(itg["expr"], lambda r: (r[0] == "fn" and r[1] in UNARY_SWAP) or r[0] in BINARY_SWAP)
         if not ss:
@@ -351,8 +386,41 @@ def noise(n):
             make_mesh("interval", 1)
 
 
+_TYPES = {}
+
+
+def pytypes():
+    """Coefficient / Constant classes as a problem solving environment defines them (subclasses of ufl's)"""
+    if not _TYPES:
+        import ufl
+
+        class FunctionA(ufl.Coefficient):
+            pass
+
+        class FunctionB(ufl.Coefficient):
+            pass
+
+        class ConstantA(ufl.Constant):
+            pass
+
+        _TYPES["coef"] = [ufl.Coefficient, FunctionA, FunctionB]
+        _TYPES["const"] = [ufl.Constant, ConstantA, ConstantA]
+    return _TYPES
+
+
+class TypedBuilder(Builder):
+    """fields are instances of the Python class named by their 'pytype'"""
+
+    def mk_coef(self, V, name):
+        return pytypes()["coef"][int(self.world["fields"][name].get("pytype", 0))](V)
+
+    def mk_const(self, mesh, shape, name):
+        cls = pytypes()["const"][int(self.world["fields"][name].get("pytype", 0))]
+        return cls(mesh) if shape == () else cls(mesh, shape=shape)
+
+
 def signature_of(case):
-    b = Builder(case["world"], case.get("vars", ()))
+    b = TypedBuilder(case["world"], case.get("vars", ()))
     form, exprs = build_form(b, case["integrals"])
     if form is None or not form.integrals():
         return None, None, None
@@ -412,6 +480,14 @@ def check_case(case):
         # the edited field must really occur in the built form (construction may have folded it away)
         provable = [c.ufl_element() for c in form1.coefficients()] != [c.ufl_element() for c in form2.coefficients()] or \
             [a.ufl_element() for a in form1.arguments()] != [a.ufl_element() for a in form2.arguments()]
+    if kind == "merge":
+        # provable when both fields occur in the built base form and the kept one in the merged form
+        a_, b_ = c2["_merged"]
+        t1 = form1.coefficients() + tuple(form1.constants())
+        t2 = form2.coefficients() + tuple(form2.constants())
+        provable = any(t is b1.fields[a_] for t in t1) and any(t is b1.fields[b_] for t in t1) and len(t2) == len(t1) - 1
+        labels.append("merge:types-differ" if case["world"]["fields"][a_].get("pytype", 0) != case["world"]["fields"][b_].get("pytype", 0)
+                      else "merge:same-type")
     if kind == "integrand":
         # what a compiler sees: the k-th coefficient / constant / argument of the form, whatever object it is.  If the
         # lists of elements differ the forms differ as data; otherwise the integrand values must differ at random
